@@ -137,10 +137,13 @@ def run(case, j):
     Yh, W = pc.oracle_yhat(lr, X, Y)
     nX2, nY2 = float(np.linalg.norm(X) ** 2), float(np.linalg.norm(Y2) ** 2)
 
-    # ---- grid with the exact least-squares regressor
+    # ---- grid with the exact least-squares regressor (one regressor object for the whole sweep; the
+    # estimator of the first grid point has a past: an earlier fit on other data with the same objects)
+    robj = pc.make_regressor(lr)
     lx, ly, lyh = [], [], []
     for a in GRID:
-        est = pc.fit_pcovr(j, f"grid a={a:.3f}", X, Y, lr, mixing=float(a), n_components=k, space=space, **skw)
+        past = np.random.default_rng(case["cseed"] + 17) if (case["cseed"] % 3 == 0 and a in (0.0, 0.5)) else None
+        est = pc.fit_pcovr(j, f"grid a={a:.3f}", X, Y, lr, regressor_obj=robj, past=past, mixing=float(a), n_components=k, space=space, **skw)
         T = np.asarray(est.transform(X))
         Xr = est.inverse_transform(T)
         Yp = pc.col2(est.predict(X), n)
@@ -189,8 +192,10 @@ def run(case, j):
     # ---- ridge: optimality w.r.t. its own Yhat
     rg = case["ridge"]
     Yhr, _ = pc.oracle_yhat(rg, X, Y)
-    for a in case["ridge_mix"]:
-        est = pc.fit_pcovr(j, f"ridge a={a:.3f}", X, Y, rg, mixing=a, n_components=k, space=space, **skw)
+    rgobj = pc.make_regressor(rg)
+    for i_, a in enumerate(case["ridge_mix"]):
+        past = np.random.default_rng(case["cseed"] + 23) if (case["cseed"] % 2 == 0 and i_ == 0) else None
+        est = pc.fit_pcovr(j, f"ridge a={a:.3f}", X, Y, rg, regressor_obj=rgobj, past=past, mixing=a, n_components=k, space=space, **skw)
         _judge_objective(j, rng, a, X, Yhr, np.asarray(est.transform(X)), k, "ridge")
     j.nontrivial = True
     j.sample = {
